@@ -725,7 +725,9 @@ LEVEL_NOTE = ("Refinement layer (Signac/Properties/Refinement.lean, audited with
               "Not proved / assumed: steps are atomic at the recorded granularity, no power-loss model; reads never fail; "
               "ENOENT is not injected; init with force=True, reset, and a state-point change of a job without state-point "
               "file are outside crash_safe/fault_safe (the latter is modelled and compared, only 'an exception is raised' is "
-              "proved); completeness of an undisturbed clone is compared with the real code but not proved; 'validates' = "
+              "proved); completeness of an UNDISTURBED clone is proved (clone_refines: the event-free copy yields state point and payload of the "
+              "source under the scan-order hypothesis), that of a clone that returned normally under an arbitrary schedule is "
+              "compared with the real code but not proved; 'validates' = "
               "hash equality (MD5 collision-freeness assumed); the oracle rule 'a failed directory rename leaves the source's "
               "state-point file as it was' is stricter than the literal property text (it is what the rollback anchor "
               "exists for). Trusted: Lean kernel, propext/Classical.choice/Quot.sound, harness/faultfs.py, the oracle.")
